@@ -55,8 +55,9 @@ def run(index, tier="quick", seed=0) -> Result:
     where = f"{fn.file}:{fn.lineno}"
     found = 0
     # (normal form: loops over a constant range are unrolled, small vectors filled element by element become scalar locals)
-    from ..astutil import unroll_constant_loops
+    from ..astutil import inline_constant_helpers, unroll_constant_loops
     fnode, _nl = unroll_constant_loops(fn.node)
+    fnode = inline_constant_helpers(fnode)
     comp_of, disp_probs = component_map(fnode)
     for node in ast.walk(fnode):
         if isinstance(node, ast.Assign) and isinstance(node.targets[0], ast.Name) and node.targets[0].id in comp_of \
